@@ -234,6 +234,12 @@ func (h *Hello) UnmarshalBinary(data []byte) error {
 			err = v.UnmarshalBinary(data[next:])
 			next += int(v.Len())
 			h.Elements = append(h.Elements, v)
+		default:
+			// elements this implementation does not know are skipped by their length
+			if e.Length < 4 {
+				return errors.New("The hello element length is shorter than its header.")
+			}
+			next += int(e.Length+7) / 8 * 8
 		}
 	}
 	return err
